@@ -314,9 +314,12 @@ Definition key_eqb (a b : key) : bool :=
 Definition key_mem (k : key) (l : list key) : bool := existsb (key_eqb k) l.
 
 (* leaves: LIntV / LBoolV = an int / bool (value known: its repr is computed), LNum = float (or another number; repr carried), LNone = None, LStr = str, LOther = any other object (shown through its repr),
-   LClass = a class (title 'type', css class '<name>-class') *)
-Inductive lkind := LNum | LNone | LStr | LOther | LClass | LIntV (z : Z) | LBoolV (b : bool).
-Definition is_str (lk : lkind) : bool := match lk with LStr => true | _ => false end.
+   LClass = a class (title 'type', css class '<name>-class'),
+   LStrSub = an instance of a str subclass (treated as a str, but its repr is its own: carried) -- the leaf kinds whose text is
+   arbitrary user data are LNum (subclasses of int / float included), LOther, LStrSub and every carried rep / fmt *)
+Inductive lkind := LNum | LNone | LStr | LOther | LClass | LIntV (z : Z) | LBoolV (b : bool) | LStrSub.
+Definition is_str (lk : lkind) : bool := match lk with LStr | LStrSub => true | _ => false end.
+Definition plain_str (lk : lkind) : bool := match lk with LStr => true | _ => false end.
 
 (* tname = type(value).__name__, cname = camel_to_snake(tname, '-'), raw = the string itself (LStr),
    rep = what simple_value's value_repr() returns for a non-string (and for a short string with code points above 255; the repr
@@ -498,7 +501,7 @@ Definition known_repr (lk : lkind) : option str :=
 Definition leaf_fmt (lk : lkind) (raw fmt : str) : str :=
   match known_repr lk with
   | Some r => r
-  | None => if is_str lk && latin1 raw
+  | None => if plain_str lk && latin1 raw
             then py_repr (if (256 <? List.length raw)%nat then firstn 256 raw ++ s_ellipsis else raw)
             else fmt
   end.
@@ -507,7 +510,7 @@ Definition is_simple (v : pv) : bool := match v with PLeaf LOther _ _ _ _ _ | PL
 (* make_title *)
 Definition title_of (v : pv) : str :=
   match v with
-  | PLeaf LNum t _ _ _ _ | PLeaf LStr t _ _ _ _ | PLeaf LClass t _ _ _ _ | PLeaf (LIntV _) t _ _ _ _ | PLeaf (LBoolV _) t _ _ _ _ => t
+  | PLeaf LNum t _ _ _ _ | PLeaf LStr t _ _ _ _ | PLeaf LStrSub t _ _ _ _ | PLeaf LClass t _ _ _ _ | PLeaf (LIntV _) t _ _ _ _ | PLeaf (LBoolV _) t _ _ _ _ => t
   | PLeaf _ t _ _ _ _ => t ++ s_dots
   | PNode _ t _ _ _ => t ++ s_dots
   end.
@@ -527,7 +530,7 @@ Section TreeView.
                | Some _ => true
                | None => match lk with
                          | LNum | LNone | LIntV _ | LBoolV _ => false
-                         | LStr => negb (Z.of_nat (List.length raw) <=? o_max_len o)%Z
+                         | LStr | LStrSub => negb (Z.of_nat (List.length raw) <=? o_max_len o)%Z
                          | LOther | LClass => true
                          end
                end
@@ -609,7 +612,7 @@ Section TreeView.
 
   (* simple_value's value_repr: a string shorter than max_summary_len_for_str is shown through repr, a longer one as it is *)
   Definition leaf_text (lk : lkind) (raw rep : str) : str :=
-    if is_str lk then (if (Z.of_nat (List.length raw) <? o_max_len o)%Z then (if latin1 raw then py_repr raw else rep) else raw)
+    if is_str lk then (if (Z.of_nat (List.length raw) <? o_max_len o)%Z then (if plain_str lk && latin1 raw then py_repr raw else rep) else raw)
     else match known_repr lk with Some r => r | None => rep end.
 
   (* HtmlTreeView._render: summary + content (simple_value / complex_value) *)
@@ -691,7 +694,7 @@ Definition d_key (t : tr) : option key :=
 Definition d_lkind (t : tr) : option lkind :=
   match t with
   | I 0%Z => Some LNum | I 1%Z => Some LNone | I 2%Z => Some LStr | I 3%Z => Some LOther | I 4%Z => Some LClass
-  | L [I 5%Z; I z] => Some (LIntV z) | L [I 6%Z; b] => do b' <- dbool b; Some (LBoolV b')
+  | L [I 5%Z; I z] => Some (LIntV z) | L [I 6%Z; b] => do b' <- dbool b; Some (LBoolV b') | I 7%Z => Some LStrSub
   | _ => None
   end.
 Fixpoint d_pv (fuel : nat) (t : tr) : option pv :=
